@@ -17,9 +17,10 @@ import (
 func init() {
 	register(&Rule{ID: "R-optimizer-local-state", Floor: 9, Run: ruleOptimizerLocalState,
 		Doc: "Optimizer and fuzzer rebuild programs block by block. (a) For every field of a traversal driver struct (a struct of package optimizer/fuzzer whose methods receive AST nodes): " +
-			"if the field is written by a method and read in a branch condition of a node-processing method, that method must reset it at entry (an assignment at the top level of its body before the first use) — " +
+			"if the field is written by a method and read in a branch condition of a node-processing method, that method must reset it at entry (an assignment at the top level of its body before the first use), " +
+			"or be an unexported method that is only ever called by methods of the driver that have reset it before the call (state set, and restored, by whoever starts the traversal step) — " +
 			"otherwise a decision taken in one block/function leaks into the next one processed. (b) For every loop over a list of nodes that conditionally skips an element (continue/break before the append, or a conditional append): " +
-			"every variable of the gating condition is a local of that function (fresh per invocation), a receiver field discharged by (a), and never a package-level variable; and the gate is only raised under a condition that derives " +
+			"(range or counting loop) every variable of the gating condition is a local of that function or a field of a local struct value (fresh per invocation), a receiver field discharged by (a), and never a package-level variable; and the gate is only raised under a condition that derives " +
 			"from a test for the never type on an earlier element (statements are dropped only after a diverging statement of the same block). " +
 			"Necessary: with gating state that survives the block, the statements of a later block are dropped although nothing diverges before them."})
 }
@@ -122,11 +123,19 @@ func travStatePkg(c *Ctx, m *travModel, p *packages.Package) []Obligation {
 	pk := relPkg(p.PkgPath)[len("homescript/"):]
 	var obs []Obligation
 	type method struct {
-		fd   *ast.FuncDecl
-		recv types.Object
-		node bool
+		fd    *ast.FuncDecl
+		fn    *types.Func
+		recv  types.Object
+		recvT *types.Named
+		node  bool
+	}
+	type callSite struct {
+		caller   *method
+		pos      token.Pos
+		repeated bool // inside a loop or a function literal of the caller: may run several times per entry of the caller
 	}
 	byRecv := map[*types.Named][]*method{}
+	byFn := map[*types.Func]*method{}
 	for _, fd := range AllFuncDecls(p) {
 		fn, _ := info.Defs[fd.Name].(*types.Func)
 		if fn == nil {
@@ -147,7 +156,48 @@ func travStatePkg(c *Ctx, m *travModel, p *packages.Package) []Obligation {
 		if len(fd.Recv.List[0].Names) > 0 {
 			ro = info.Defs[fd.Recv.List[0].Names[0]]
 		}
-		byRecv[rn] = append(byRecv[rn], &method{fd, ro, travHasNodeParam(m, sg)})
+		mm := &method{fd, fn, ro, rn, travHasNodeParam(m, sg)}
+		byRecv[rn] = append(byRecv[rn], mm)
+		byFn[fn] = mm
+	}
+	// static call sites of the package's methods (and uses as method values)
+	callSites := map[*types.Func][]callSite{}
+	escapes := map[*types.Func]bool{}
+	for _, fd := range AllFuncDecls(p) {
+		var caller *method
+		if fn, _ := info.Defs[fd.Name].(*types.Func); fn != nil {
+			caller = byFn[fn]
+		}
+		called := map[*ast.SelectorExpr]bool{}
+		var stack []ast.Node
+		ast.Inspect(fd.Body, func(n ast.Node) bool {
+			if n == nil {
+				stack = stack[:len(stack)-1]
+				return true
+			}
+			stack = append(stack, n)
+			switch x := n.(type) {
+			case *ast.CallExpr:
+				if se, ok := ast.Unparen(x.Fun).(*ast.SelectorExpr); ok {
+					if callee, ok := info.Uses[se.Sel].(*types.Func); ok && byFn[callee] != nil {
+						called[se] = true
+						rep := false
+						for _, a := range stack {
+							switch a.(type) {
+							case *ast.ForStmt, *ast.RangeStmt, *ast.FuncLit:
+								rep = true
+							}
+						}
+						callSites[callee] = append(callSites[callee], callSite{caller, x.Pos(), rep})
+					}
+				}
+			case *ast.SelectorExpr:
+				if callee, ok := info.Uses[x.Sel].(*types.Func); ok && byFn[callee] != nil && !called[x] {
+					escapes[callee] = true
+				}
+			}
+			return true
+		})
 	}
 	var recvs []*types.Named
 	for rn, ms := range byRecv {
@@ -205,12 +255,21 @@ func travStatePkg(c *Ctx, m *travModel, p *packages.Package) []Obligation {
 	}
 	writesField := func(st ast.Stmt, recv types.Object, fname string) bool {
 		isF := func(e ast.Expr) bool {
-			se, ok := ast.Unparen(e).(*ast.SelectorExpr)
-			if !ok || se.Sel.Name != fname {
+			// recv.F, or a part of it (recv.F.g, recv.F[i]): storing into a part changes the field
+			for {
+				switch x := ast.Unparen(e).(type) {
+				case *ast.IndexExpr:
+					e = x.X
+					continue
+				case *ast.SelectorExpr:
+					if id, ok := ast.Unparen(x.X).(*ast.Ident); ok {
+						return x.Sel.Name == fname && recv != nil && info.Uses[id] == recv
+					}
+					e = x.X
+					continue
+				}
 				return false
 			}
-			id, ok := ast.Unparen(se.X).(*ast.Ident)
-			return ok && recv != nil && info.Uses[id] == recv
 		}
 		switch x := st.(type) {
 		case *ast.AssignStmt:
@@ -263,6 +322,49 @@ func travStatePkg(c *Ctx, m *travModel, p *packages.Package) []Obligation {
 				ob.Status, ob.Detail = Discharged, fmt.Sprintf("field %s is read in conditions of %s but no method writes it: fixed after construction", f.Name(), names(gaters))
 			default:
 				var bad []string
+				// resetBefore: a top-level assignment to the field in mm's body before position `before`
+				resetBefore := func(mm *method, before token.Pos) bool {
+					for _, s := range mm.fd.Body.List {
+						if s.Pos() < before && writesField(s, mm.recv, f.Name()) {
+							if as, ok := s.(*ast.AssignStmt); ok && as.Tok == token.ASSIGN {
+								return true
+							}
+						}
+					}
+					return false
+				}
+				// enteredFresh: mm is not an entry point (unexported, never used as a method value) and every
+				// call of it in the package comes from a method of the same driver that has reset the field
+				// before the call (or is itself only entered that way): the state is set for this traversal
+				// step by whoever starts it (flag saved/set/restored around a sub-traversal).
+				var enteredFresh func(mm *method, visiting map[*method]bool) bool
+				enteredFresh = func(mm *method, visiting map[*method]bool) bool {
+					if visiting[mm] {
+						return true
+					}
+					if mm.fn == nil || mm.fn.Exported() {
+						return false
+					}
+					visiting[mm] = true
+					defer delete(visiting, mm)
+					sites := callSites[mm.fn]
+					if len(sites) == 0 || escapes[mm.fn] {
+						return false
+					}
+					for _, cs := range sites {
+						if cs.caller == nil || cs.caller.recvT != rn || cs.repeated {
+							// (a call in a loop runs several traversal steps on one reset: the state of one leaks into the next)
+							return false
+						}
+						if resetBefore(cs.caller, cs.pos) {
+							continue
+						}
+						if !enteredFresh(cs.caller, visiting) {
+							return false
+						}
+					}
+					return true
+				}
 				for _, g := range gaters {
 					if !g.node {
 						continue
@@ -274,15 +376,7 @@ func travStatePkg(c *Ctx, m *travModel, p *packages.Package) []Obligation {
 							first = pos
 						}
 					}
-					reset := false
-					for _, s := range g.fd.Body.List {
-						if s.Pos() < first && writesField(s, g.recv, f.Name()) {
-							if as, ok := s.(*ast.AssignStmt); ok && as.Tok == token.ASSIGN {
-								reset = true
-							}
-						}
-					}
-					if !reset {
+					if !resetBefore(g, first) && !enteredFresh(g, map[*method]bool{}) {
 						bad = append(bad, fmt.Sprintf("%s (first conditional use at %s)", g.fd.Name.Name, c.Pos(first)))
 					}
 				}
@@ -311,8 +405,21 @@ func travStatePkg(c *Ctx, m *travModel, p *packages.Package) []Obligation {
 		}
 		nloop := 0
 		ast.Inspect(fd.Body, func(n ast.Node) bool {
-			rs, ok := n.(*ast.RangeStmt)
-			if !ok {
+			// a loop over a list: `for … range X` or the counting form `for i := …; i < len(X); i++`
+			var rs struct {
+				X    ast.Expr
+				Body *ast.BlockStmt
+				pos  token.Pos
+			}
+			switch l := n.(type) {
+			case *ast.RangeStmt:
+				rs.X, rs.Body, rs.pos = l.X, l.Body, l.Pos()
+			case *ast.ForStmt:
+				if x := travCountingLoopOver(info, l); x != nil {
+					rs.X, rs.Body, rs.pos = x, l.Body, l.Pos()
+				}
+			}
+			if rs.X == nil {
 				return true
 			}
 			et := types.Unalias(info.TypeOf(rs.X))
@@ -377,29 +484,86 @@ func travStatePkg(c *Ctx, m *travModel, p *packages.Package) []Obligation {
 				if gi > 0 || nloop > 1 {
 					// keys are made of the construct text; identical conditions in one function get an ordinal
 				}
-				// (b1) variables of the condition
-				var vars []types.Object
-				var fieldVars []types.Object
+				// (b1) variables of the condition. A state variable is a local, a field of the receiver, or a
+				// field of a local struct (per-block state bundled into a small struct).
+				var vars []travStateVar
+				var fieldVars []travStateVar
 				var bad []string
+				isLocal := func(v *types.Var) bool { return v.Pos() >= fd.Body.Pos() && v.Pos() < fd.Body.End() }
+				// stateOf: the state variable an lvalue / operand denotes (ok=false: none)
+				stateOf := func(e ast.Expr) (travStateVar, bool) {
+					switch z := ast.Unparen(e).(type) {
+					case *ast.Ident:
+						o := info.Uses[z]
+						if o == nil {
+							o = info.Defs[z]
+						}
+						if v, ok := o.(*types.Var); ok && !v.IsField() {
+							return travStateVar{base: v}, true
+						}
+					case *ast.SelectorExpr:
+						fv, _ := info.Uses[z.Sel].(*types.Var)
+						if fv == nil || !fv.IsField() {
+							return travStateVar{}, false
+						}
+						// innermost base of a selector chain x.a.b: keyed by the first field selected on x
+						inner := z
+						for {
+							nx, ok := ast.Unparen(inner.X).(*ast.SelectorExpr)
+							if !ok {
+								break
+							}
+							if nf, _ := info.Uses[nx.Sel].(*types.Var); nf == nil || !nf.IsField() {
+								break
+							}
+							inner = nx
+						}
+						id, ok := ast.Unparen(inner.X).(*ast.Ident)
+						if !ok {
+							return travStateVar{}, false
+						}
+						ifv, _ := info.Uses[inner.Sel].(*types.Var)
+						bv, _ := info.Uses[id].(*types.Var)
+						if bv == nil || ifv == nil {
+							return travStateVar{}, false
+						}
+						if recv != nil && bv == recv {
+							return travStateVar{field: ifv}, true
+						}
+						return travStateVar{base: bv, field: ifv}, true
+					}
+					return travStateVar{}, false
+				}
 				ast.Inspect(g.Cond, func(x ast.Node) bool {
 					switch y := x.(type) {
 					case *ast.SelectorExpr:
-						if id, ok := ast.Unparen(y.X).(*ast.Ident); ok && recv != nil && info.Uses[id] == recv {
-							if v, ok := info.Uses[y.Sel].(*types.Var); ok && v.IsField() {
-								fieldVars = append(fieldVars, v)
-								// receiver field: must be reset at entry of this function
-								reset := false
-								for _, s := range fd.Body.List {
-									if s.Pos() < rs.Pos() && writesField(s, recv, y.Sel.Name) {
-										reset = true
-									}
+						sv, ok := stateOf(y)
+						if !ok {
+							return true
+						}
+						if sv.base == nil {
+							fieldVars = append(fieldVars, sv)
+							// receiver field: must be reset at entry of this function
+							reset := false
+							for _, s := range fd.Body.List {
+								if s.Pos() < rs.pos && writesField(s, recv, sv.field.Name()) {
+									reset = true
 								}
-								if !reset {
-									bad = append(bad, fmt.Sprintf("receiver field %s.%s is not reset before the loop", id.Name, y.Sel.Name))
-								}
+							}
+							if !reset {
+								bad = append(bad, fmt.Sprintf("receiver field %s.%s is not reset before the loop", recv.Name(), sv.field.Name()))
 							}
 							return false
 						}
+						if sv.base.Parent() == p.Types.Scope() {
+							bad = append(bad, "package-level variable "+sv.base.Name())
+						} else if isLocal(sv.base) {
+							if _, isPtr := types.Unalias(sv.base.Type()).Underlying().(*types.Pointer); isPtr {
+								return true // a field behind a pointer is not state of this invocation: look at the pointer itself
+							}
+							vars = append(vars, sv)
+						}
+						return false
 					case *ast.Ident:
 						o := info.Uses[y]
 						v, ok := o.(*types.Var)
@@ -408,8 +572,8 @@ func travStatePkg(c *Ctx, m *travModel, p *packages.Package) []Obligation {
 						}
 						if v.Parent() == p.Types.Scope() {
 							bad = append(bad, "package-level variable "+v.Name())
-						} else if v.Pos() >= fd.Body.Pos() && v.Pos() < fd.Body.End() {
-							vars = append(vars, v)
+						} else if isLocal(v) {
+							vars = append(vars, travStateVar{base: v})
 						}
 					}
 					return true
@@ -421,7 +585,7 @@ func travStatePkg(c *Ctx, m *travModel, p *packages.Package) []Obligation {
 				} else {
 					var ns []string
 					for _, v := range vars {
-						ns = append(ns, v.Name())
+						ns = append(ns, v.String())
 					}
 					ob.Status, ob.Detail = Discharged, "gating variables are locals of the function: "+orDash(strings.Join(ns, ","))
 				}
@@ -431,27 +595,12 @@ func travStatePkg(c *Ctx, m *travModel, p *packages.Package) []Obligation {
 					obs = append(obs, Obligation{Key: base + "|raised only after a never-typed element", Pos: c.Pos(g.Pos()), Status: Undecided, Detail: "anchor unresolved: kind constant of the never type"})
 					continue
 				}
-				closure := map[types.Object]bool{}
+				closure := map[travStateVar]bool{}
 				for _, v := range vars {
 					closure[v] = true
 				}
 				for _, v := range fieldVars {
 					closure[v] = true
-				}
-				// object denoted by an lvalue / operand: a local, or a field of the receiver
-				objOf := func(e ast.Expr) types.Object {
-					switch z := ast.Unparen(e).(type) {
-					case *ast.Ident:
-						if o := info.Uses[z]; o != nil {
-							return o
-						}
-						return info.Defs[z]
-					case *ast.SelectorExpr:
-						if id, ok := ast.Unparen(z.X).(*ast.Ident); ok && recv != nil && info.Uses[id] == recv {
-							return info.Uses[z.Sel]
-						}
-					}
-					return nil
 				}
 				derives := false
 				var chain []string
@@ -470,8 +619,8 @@ func travStatePkg(c *Ctx, m *travModel, p *packages.Package) []Obligation {
 								continue
 							}
 							for i, l := range as.Lhs {
-								o := objOf(l)
-								if o == nil || !closure[o] || i >= len(as.Rhs) {
+								o, ok := stateOf(l)
+								if !ok || !closure[o] || i >= len(as.Rhs) {
 									continue
 								}
 								if rid, ok := as.Rhs[i].(*ast.Ident); ok && (rid.Name == "false" || rid.Name == "nil") {
@@ -486,8 +635,8 @@ func travStatePkg(c *Ctx, m *travModel, p *packages.Package) []Obligation {
 						ast.Inspect(ifs.Cond, func(y ast.Node) bool {
 							switch z := y.(type) {
 							case *ast.Ident:
-								if v, ok := info.Uses[z].(*types.Var); ok && !closure[v] && v.Pos() >= fd.Body.Pos() && v.Pos() < fd.Body.End() {
-									closure[v] = true
+								if v, ok := info.Uses[z].(*types.Var); ok && !v.IsField() && isLocal(v) && !closure[travStateVar{base: v}] {
+									closure[travStateVar{base: v}] = true
 									changed = true
 								}
 								if k := ConstOf(info, z); k == neverKind && !derives {
@@ -495,15 +644,20 @@ func travStatePkg(c *Ctx, m *travModel, p *packages.Package) []Obligation {
 									chain = append(chain, fmt.Sprintf("`%s` at %s", exprStr(ifs.Cond), c.Pos(ifs.Pos())))
 								}
 							case *ast.SelectorExpr:
-								if o := objOf(z); o != nil {
-									if v, ok := o.(*types.Var); ok && v.IsField() && !closure[v] {
-										closure[v] = true
-										changed = true
-									}
-								}
 								if k := ConstOf(info, z); k == neverKind && !derives {
 									derives = true
 									chain = append(chain, fmt.Sprintf("`%s` at %s", exprStr(ifs.Cond), c.Pos(ifs.Pos())))
+								}
+								if o, ok := stateOf(z); ok && o.field != nil && (o.base == nil || isLocal(o.base)) {
+									if !closure[o] {
+										closure[o] = true
+										changed = true
+									}
+									if o.base != nil {
+										if _, isPtr := types.Unalias(o.base.Type()).Underlying().(*types.Pointer); !isPtr {
+											return false // the struct local itself is not a separate state variable
+										}
+									}
 								}
 							}
 							return true
@@ -524,6 +678,68 @@ func travStatePkg(c *Ctx, m *travModel, p *packages.Package) []Obligation {
 		})
 	}
 	return obs
+}
+
+// travStateVar: a piece of traversal state — a local (base), a field of the receiver
+// (field), or a field of a local struct value (base and field).
+type travStateVar struct {
+	base  *types.Var
+	field *types.Var
+}
+
+func (v travStateVar) String() string {
+	switch {
+	case v.base != nil && v.field != nil:
+		return v.base.Name() + "." + v.field.Name()
+	case v.base != nil:
+		return v.base.Name()
+	case v.field != nil:
+		return v.field.Name()
+	}
+	return "?"
+}
+
+// travCountingLoopOver: `for i := …; i < len(X); i++ {…}` (also `len(X) > i`, `i != len(X)`,
+// `i <= len(X)-1`): returns X, the list the loop runs over.
+func travCountingLoopOver(info *types.Info, f *ast.ForStmt) ast.Expr {
+	be, ok := ast.Unparen(f.Cond).(*ast.BinaryExpr)
+	if f.Cond == nil || !ok {
+		return nil
+	}
+	lenArg := func(e ast.Expr) ast.Expr {
+		e = ast.Unparen(e)
+		if b, ok := e.(*ast.BinaryExpr); ok && b.Op == token.SUB {
+			e = ast.Unparen(b.X)
+		}
+		call, ok := e.(*ast.CallExpr)
+		if !ok || len(call.Args) != 1 {
+			return nil
+		}
+		if id, ok := ast.Unparen(call.Fun).(*ast.Ident); ok {
+			if b, ok := info.Uses[id].(*types.Builtin); ok && b.Name() == "len" {
+				return call.Args[0]
+			}
+		}
+		return nil
+	}
+	switch be.Op {
+	case token.LSS, token.LEQ, token.NEQ, token.GTR, token.GEQ:
+	default:
+		return nil
+	}
+	var idx, list ast.Expr
+	if x := lenArg(be.Y); x != nil {
+		idx, list = be.X, x
+	} else if x := lenArg(be.X); x != nil {
+		idx, list = be.Y, x
+	}
+	if list == nil {
+		return nil
+	}
+	if _, ok := ast.Unparen(idx).(*ast.Ident); !ok {
+		return nil
+	}
+	return list
 }
 
 func orDash(s string) string {
